@@ -43,8 +43,8 @@ Notation ctx_ok := (ctx_ok bound).
 
 Lemma okstep_refl sc e st F c c' E stL : rel sc e st E stL -> okstep sc e st F c c' E stL [] E stL F.
 Proof.
-  intros H. split; [apply XS_nil|]. split; [apply lframe_refl; [apply (r_wf _ _ _ _ _ _ _ H) | apply (r_linv _ _ _ _ _ _ _ H)]|].
-  split; [exact H | apply F_new_refl].
+  intros H. split; [apply XS_nil|]. split; [apply wframe_refl|].
+  split; [exact H | split; [apply F_new_refl | apply keep_refl]].
 Qed.
 
 (* `local V<t> = ex` for an expression that evaluates now *)
@@ -59,9 +59,10 @@ Proof.
     as (stm & Hx & Hex & Hfr).
   exists (sset (fmt_var t) (s_ncell stm) E), (snd (alloc_cell stm lv)), (s_ncell stm).
   split; [|split; [apply sget_sset_same | apply get_cell_alloc_new]].
-  split; [apply ExecS_one; exact Hex|]. split; [exact Hfr|]. split.
+  split; [apply ExecS_one; exact Hex|]. split; [apply lframe_w; exact Hfr|]. split.
   - eapply rel_lframe; [exact Hrel | exact Hfr | exact Hb |]. cbn [alloc_cell snd s_out]. apply Hx.
-  - split; [apply incl_tl, incl_refl|]. intros t' [<-|Ht']; [right; exact Ht | left; exact Ht'].
+  - split; [|eapply keep_lframe; eassumption].
+    split; [apply incl_tl, incl_refl|]. intros t' [<-|Ht']; [right; exact Ht | left; exact Ht'].
 Qed.
 
 (* ICopy t a for a user variable in scope *)
@@ -174,12 +175,13 @@ Proof.
   assert (Hrel3 : rel sc e (s_emit st s) E st3).
   { apply rel_emit. eapply rel_cells_ext; eassumption. }
   exists (sset (fmt_var v) (s_ncell st3) E), (snd (alloc_cell st3 VNil)), (v :: F). split.
-  - split; [apply ExecS_one; exact Hex|]. split; [|split].
-    + eapply lframe_trans; [apply lframe_cells_ext; eassumption|].
+  - split; [apply ExecS_one; exact Hex|]. split; [|split; [|split]].
+    + apply lframe_w. eapply lframe_trans; [apply lframe_cells_ext; eassumption|].
       eapply lframe_trans; [apply lframe_emit; assumption|].
       apply lframe_local; [apply (r_wf _ _ _ _ _ _ _ Hrel3) | apply (r_linv _ _ _ _ _ _ _ Hrel3) | apply HE; exact Hv | exact Hv].
     + apply rel_local_temp; [exact Hrel3 | lia].
     + split; [apply incl_tl, incl_refl|]. intros t' [<-|Ht']; [right; exact Hv | left; exact Ht'].
+    + intros w Hw. apply sget_sset_var. destruct (r_scb _ _ _ _ _ _ _ Hrel w Hw). lia.
   - unfold aexpand. rewrite (Hl v) by (left; exact Hv).
     eapply denotes_local; [left; reflexivity | apply sget_sset_same | rewrite get_cell_alloc_new; constructor].
 Qed.
@@ -230,8 +232,9 @@ Proof.
     rewrite bind_locals_one in H. exact H. }
   exists (sset (fmt_var t) (s_ncell stL) E), (snd (alloc_cell stL VNil)), (s_ncell stL).
   split; [|apply sget_sset_same].
-  split; [apply ExecS_one; exact Hex|]. split; [apply lframe_local; [exact Hwf | exact Hli | apply HE; exact Ht | exact Ht]|].
-  split; [apply rel_local_temp; [exact Hrel | lia] | apply F_new_refl].
+  split; [apply ExecS_one; exact Hex|]. split; [apply lframe_w; apply lframe_local; [exact Hwf | exact Hli | apply HE; exact Ht | exact Ht]|].
+  split; [apply rel_local_temp; [exact Hrel | lia]|]. split; [apply F_new_refl|].
+  intros w Hw. apply sget_sset_var. destruct (r_scb _ _ _ _ _ _ _ Hrel w Hw). lia.
 Qed.
 
 (* IAssign t a for a temporary t that is a local: `V<t> = xa` *)
@@ -253,31 +256,26 @@ Proof.
   assert (Hwf1 : wfenv E st1) by (eapply wfenv_ext; [exact Hwf | apply Hx1]).
   assert (Hli1 : linv st1) by (eapply cells_ext_linv; eassumption).
   exists (set_cell st1 p lv), lv. split; [|split; [apply get_cell_set_same | exact Hv]].
-  split; [apply ExecS_one; exact Hex|]. split; [|split; [|apply F_new_refl]].
-  - eapply lframe_trans; [apply lframe_cells_ext; eassumption | eapply lframe_set; eassumption].
+  split; [apply ExecS_one; exact Hex|]. split; [|split; [|split; [apply F_new_refl | apply keep_refl]]].
+  - apply lframe_w. eapply lframe_trans; [apply lframe_cells_ext; eassumption | eapply lframe_set; eassumption].
   - apply (rel_set_temp pv bound sc e st E st1 t p lv); [eapply rel_cells_ext; eassumption | lia | exact Hp].
 Qed.
 
 (* leaving a Lua block: the environment before the block, the state after it *)
-Lemma rel_restrict sc e st E E' stL' :
-  rel sc e st E' stL' -> env_incl E E' -> (forall v, In v sc -> sget (fmt_var v) E <> None) ->
+Lemma rel_restrict sc e0 st0 e st E E' stL stL' :
+  rel sc e0 st0 E stL -> rel sc e st E' stL' -> keep sc E E' -> (s_ncell stL <= s_ncell stL')%positive ->
   rel sc e st E stL'.
 Proof.
-  intros [Hv Hb Hi Hp Hpb HpE HpG Hwf Ht Hl] Hincl Hdom. constructor.
+  intros H0 [Hv Hb Hi Hp Hpb HpE HpG Hwf Ht Hl] Hk Hnc. constructor.
   - intros w Hin. destruct (Hv w Hin) as (cc & x & p & H1 & H2 & H3 & H4).
-    exists cc, x, p. repeat split; auto.
-    destruct (sget (fmt_var w) E) as [q|] eqn:Hq; [|exfalso; eapply Hdom; eassumption].
-    rewrite (Hincl _ _ Hq) in H3. exact H3.
+    exists cc, x, p. repeat split; auto. rewrite <- (Hk w Hin). exact H3.
   - exact Hb.
   - exact Hi.
   - exact Hp.
   - exact Hpb.
-  - destruct (sget (fmt_var pv) E) as [q|] eqn:Hq; [|reflexivity]. rewrite (Hincl _ _ Hq) in HpE. discriminate.
+  - apply (r_pvE _ _ _ _ _ _ _ H0).
   - exact HpG.
-  - destruct Hwf as [HV Hinj Hal]. constructor.
-    + intros x p H. eapply HV. apply Hincl. exact H.
-    + intros x y p Hx Hy. eapply Hinj; apply Hincl; eassumption.
-    + intros x p H. eapply Hal. apply Hincl. exact H.
+  - eapply wfenv_ext; [apply (r_wf _ _ _ _ _ _ _ H0) | exact Hnc].
   - exact Ht.
   - exact Hl.
 Qed.
